@@ -169,6 +169,60 @@ def arith_shape(fn):
     return None
 
 
+def probe_shape(fn, width, signed, d_type, direction):
+    """A converter whose source is not one of the recognised one-line shapes (it delegates to a helper object, a
+    closure, a table of scale factors ...) and whose raw domain is too large to tabulate: find the shape
+    `Conv.int / mulK / divK / mulRound / divRound` that agrees with the real function on a large probe set - every raw
+    value up to 18 bits, otherwise boundaries, a stride and 200 000 seeded random values, on the encode side the
+    wire-representable values, off-grid floats, ints and decimal strings - and accept it only if it agrees on ALL of
+    them (value and type, or exception type).  An *observation* like the buffer sizes (DESIGN §0.6): weaker than
+    reading the source, recorded as probed in the evidence; the correspondence run still compares the result with
+    the code afterwards."""
+    import random
+    rnd = random.Random(20260930 + width)
+    lo, hi = (-(1 << (width - 1)), (1 << (width - 1)) - 1) if signed else (0, (1 << width) - 1)
+    if width <= 18:
+        raws = list(range(lo, hi + 1))
+    else:
+        raws = sorted(set([lo, lo + 1, -1, 0, 1, 2, 3, 5, 7, 9, 10, 11, 59, 60, 61, 599, 600, 601, hi - 1, hi]
+                          + list(range(lo, hi, max(1, (hi - lo) // 50000)))
+                          + [rnd.randint(lo, hi) for _ in range(200000)]))
+        raws = [r for r in raws if lo <= r <= hi]
+
+    def outcome(f, x):
+        try:
+            r = f(x)
+            return (type(r).__name__, r)
+        except Exception as e:  # noqa
+            return ('raise', type(e).__name__)
+
+    ks = (1, 10, 60, 100, 600, 1000, 6000, 10000, 60000, 600000, 6000000)
+    cands = [('.int', lambda v: int(v))]
+    for k in ks:
+        cands.append(('.mulK %d' % k, lambda v, k=k: v * k))
+        cands.append(('.mulK %d' % k, lambda v, k=k: float(v) * float(k)))
+        cands.append(('.mulK %d' % k, lambda v, k=k: v * float(k)))
+        cands.append(('.divK %d' % k, lambda v, k=k: v / float(k)))
+        cands.append(('.mulRound %d' % k, lambda v, k=k: round(float(v) * float(k))))
+        for p_ in range(0, 7):
+            cands.append(('.divRound %d %d' % (k, p_), lambda v, k=k, p_=p_: round(v / float(k), p_)))
+    if direction == 'to':
+        probes = raws
+    else:
+        probes = []
+        for k in ks:
+            probes += [r / float(k) for r in raws[:: max(1, len(raws) // 20000)]]
+        probes += [rnd.uniform(-200.0, 400.0) for _ in range(40000)] + [rnd.uniform(-1.0, 1.0) for _ in range(5000)]
+        probes += list(range(-200, 1100)) + ['0', '1', '12', '12.5', '-3.25', '1e2', 'x', '']
+    first = probes[:: max(1, len(probes) // 400)]
+    for name, cand in cands:
+        if all(outcome(fn, x) == outcome(cand, x) for x in first) and all(outcome(fn, x) == outcome(cand, x) for x in probes):
+            PROBED.append('converter %s: shape %s identified by probing %d inputs' % (conv_name(fn), name, len(probes)))
+            return name
+    return None
+
+
+_PROBE_CACHE = {}
 CONV_TABLES = {}   # name -> list of (int key, lean val)
 ENUM_TABLES = {}   # table name -> (enum class name, width)
 ROT_TABLES = []    # names of tabulated non-enum decode-side converters on float fields (to_turn)
@@ -223,6 +277,12 @@ def translate_conv(fn, field_name, cls_name, width, signed, d_type, direction, p
         return shape
     is_enum = (inspect.isclass(fn) and issubclass(fn, enum.Enum)) or \
               (inspect.ismethod(fn) and inspect.isclass(fn.__self__) and issubclass(fn.__self__, enum.Enum))
+    if inspect.isfunction(fn) and not is_enum:
+        key = (fn, width, signed, direction)
+        if key not in _PROBE_CACHE:
+            _PROBE_CACHE[key] = probe_shape(fn, width, signed, d_type, direction)
+        if _PROBE_CACHE[key] is not None:
+            return _PROBE_CACHE[key]
     if width > 12:
         untrans('converter %s of %s.%s: not an arithmetic shape and domain too large to tabulate'
                 % (conv_name(fn), cls_name, field_name))
@@ -812,7 +872,35 @@ def main():
                 return single(vals, '%s in %s' % (var, func))
         raise ValueError('function %s not found' % func)
 
-    const_nat('ENCODE_MAX_LEN', lambda: assign_in_func(os.path.join(REPO, 'pyais/encode.py'), 'ais_to_nmea_0183', 'max_len'))
+    def observed_encode_max_len():
+        """`max_len = N` not found in ais_to_nmea_0183: the fragment size is *observed* - payloads of 1 … 200 characters
+        are cut into pieces of the same size N (all but the last), a payload of at most N characters stays in one
+        sentence, one of N + 1 does not"""
+        import pyais.encode as E
+        sizes, single_max = set(), 0
+        for n in range(1, 201):
+            out = E.ais_to_nmea_0183('A' * n, 'AIVDM', 'A', 0)
+            pls = [o.split(',')[5] for o in out]
+            if ''.join(pls) != 'A' * n:
+                raise ValueError('observation: the fragments of a %d-character payload do not concatenate to it' % n)
+            if len(pls) == 1:
+                single_max = max(single_max, n)
+            for p_ in pls[:-1]:
+                sizes.add(len(p_))
+            if len(pls) > 1 and not (0 < len(pls[-1]) <= max(sizes)):
+                raise ValueError('observation: last fragment of a %d-character payload has %d characters' % (n, len(pls[-1])))
+        if len(sizes) != 1 or single_max != next(iter(sizes)):
+            raise ValueError('observation: fragment sizes %r, longest single sentence %d' % (sorted(sizes), single_max))
+        PROBED.append('ENCODE_MAX_LEN (max_len = N not found in ais_to_nmea_0183; observed on payloads of 1 … 200 characters)')
+        return next(iter(sizes))
+
+    def encode_max_len():
+        try:
+            return assign_in_func(os.path.join(REPO, 'pyais/encode.py'), 'ais_to_nmea_0183', 'max_len')
+        except Exception:  # noqa
+            return observed_encode_max_len()
+
+    const_nat('ENCODE_MAX_LEN', encode_max_len)
 
     def min_line_len():
         def pred(node):
